@@ -22,12 +22,24 @@ definitions of families (a), (b), (c) are loaded on objects configured with ever
 or by switching it after the load; both readers are compared on layout, value, sizes, consumed bytes, every cut point, and once
 more through another public entry point (T(bytes), reads(bytearray), read(memoryview / BytesIO / real file), cs.T[2], member of
 another structure); the compiled result is also checked against the Lean model under the byte order the spelling stands for.
+
+Pointer types of every kind (family (f), harness/v10_c03.py): the configured pointer type is drawn from all 14 fixed-width integer
+types (int8 .. int128 and uint8 .. uint128: signed AND unsigned, packable and arbitrary-width) and from their alias spellings
+('long long', DWORD, int32_t, u8, ...), and reaches the object through the constructor (keyword / positional), by assignment
+(cs.pointer = cs.int32 / cs.resolve(...) / a loaded typedef) on an object constructed with another type, or is re-assigned after
+the load through another spelling of the same type; definitions (load / loadfile) with scalar pointers, pointer arrays of one and
+two dimensions, pointers to pointers / structures, pointers in nested structures and structure arrays, between packable scalars
+and block-splitting members; the pointer slots are planted with the edges of the representation (zero, all ones, top bit only,
+top bit + 1, largest positive) and addresses around the buffer.  Both readers are compared on layout, value (pointers as
+integers AND as what they dereference to), sizes, consumed bytes, every cut point and one more public entry point; every pointer
+slot must hold int.from_bytes(slot, byte order, signed = signedness of the type) by the harness' own table of the types, and
+the compiled result / layout / compile-or-fallback decision are compared with the Lean model under the base type name.
 """
 from __future__ import annotations
 
 import itertools
 
-from .. import defs, impl, refimpl, s1_mixed, s2_ptr, srcplan, v9_c03
+from .. import defs, impl, refimpl, s1_mixed, s2_ptr, srcplan, v9_c03, v10_c03
 from ..common import A, Result, mkrng, sx
 from ..structprops import Engine, load, real_parse, small_unit_bits, rand_bytes, has_eof
 
@@ -97,7 +109,14 @@ def run(env) -> Result:
                 "members) and samples of (a), (b), (c) x every spelling {<, >, !, @, =, words of ENDIANNESS_MAP} x {constructor keyword, positional, "
                 "cs.endian before load, switched after load} x {packed, aligned} x pointer width; random buffers, every cut point, and one more "
                 "public entry point (bytes / bytearray / memoryview / BytesIO / file object / T[2] / member of a structure); compiled vs "
-                "interpreted and compiled vs Lean model under the byte order the spelling stands for. distinct = "
+                "interpreted and compiled vs Lean model under the byte order the spelling stands for; (f) pointer types of every kind: "
+                "generated pointer-bearing definitions (scalar pointers, pointer arrays 1-D / 2-D, pointers to pointers / structures, pointers in "
+                "nested structures and structure arrays, next to packable scalars and block-splitting members) and the kinds of (c) x the 14 "
+                "fixed-width integer types int8..int128 / uint8..uint128 and their alias spellings x {constructor keyword, positional, "
+                "cs.pointer = cs.<type> / cs.resolve(..) / loaded typedef, re-assigned after load to the same type} x {load, loadfile} x {<,>} x "
+                "{packed, aligned}; pointer slots planted with zero / all ones / top bit / top bit + 1 / largest positive / buffer addresses; "
+                "every cut point; one more public entry point; compiled vs interpreted (value, what every pointer dereferences to, sizes, "
+                "consumed, layout, fallback), every slot vs int.from_bytes(slot, order, signedness of the type), compiled vs Lean model. distinct = "
                 "(definition, config, input); non-trivial = >= 2 fields")
     eng = Engine(env, res, "C03")
     rnd = mkrng(env["seed"], "c03")
@@ -355,6 +374,8 @@ def run(env) -> Result:
                         res.feat("family-d:short-input:one-reader-raises")
     # (e) endianness spellings x definition families x ways of configuring the object x parse entry points (harness/v9_c03.py)
     v9_c03.run(env, res, eng, trees, pointer_fields())
+    # (f) pointer types of every kind (signed / unsigned / aliases) x ways of configuring x pointer-bearing definitions (harness/v10_c03.py)
+    v10_c03.run(env, res, eng, pointer_fields())
     eng.flush()
     res.notes.append(f"{nplans[0]} generated sources translated to plans and validated")
     res.notes.append(f"{ncompiles[0]} structures compiled by the Lean model of the compiler and compared with the real plan / fallback")
